@@ -135,6 +135,7 @@ def make_aligner(c):
     """The search parameters of the adapter reach the aligner unchanged; indels are switched off by an indel cost that no
     alignment within tolerance can pay."""
     c.types(self=ObjT("SingleAdapter", **AlignerOwnerFields), sequence=Str, flags=Int)
+    c.returns(ObjT("Aligner", a0=Str, a1=Real, kw_flags=Int, kw_wildcard_ref=Bool, kw_wildcard_query=Bool, kw_indel_cost=Int, kw_min_overlap=Int))
     c.spec(aligner_spec)
     c.ensures(
         an_aligner_for_the_given_sequence_and_placement="is_class(result, 'Aligner') and seq_eq(arg(result, 0), sequence) and kw(result, 'flags') == flags",
